@@ -124,12 +124,12 @@ P['C10'] = dict(
           dict(name='backoff', tu='harness/w_conn.cpp', entry='h_backoff', engine='B', clock=True, defs={'VK_SYMCFG': 0, 'VK_ATTEMPTS': 2, 'VK_BYTES': 6}, reach=['saturated'], samples=7),
           dict(name='broker_list', tu='harness/w_conn.cpp', entry='h_brokers', engine='B', clock=True, defs={'VK_SYMCFG': 0, 'VK_ATTEMPTS': 2, 'VK_BYTES': 6}, reach=['two-hosts', 'one-host'], samples=8)])
 
-P['C19']['jobs'] += [dict(name='handshake_bytes', tu='harness/w_conn.cpp', entry='h_hostile_handshake', engine='B', clock=True, defs={'VK_SYMCFG': 0, 'VK_ATTEMPTS': 1}, defs_quick={'VK_BYTES': 5}, defs_thorough={'VK_BYTES': 8},
+P['C19']['jobs'] += [dict(name='handshake_bytes', tu='harness/w_conn.cpp', entry='h_hostile_handshake', engine='B', clock=True, defs={'VK_SYMCFG': 0, 'VK_ATTEMPTS': 1}, defs_quick={'VK_BYTES': 5}, defs_thorough={'VK_BYTES': 6},
                           reach=['accepted', 'rejected', 'split', 'long-reply'], samples=10)]
 
-P['C19']['jobs'] += [dict(name='stream_bytes', tu='harness/w_hostile.cpp', entry='h_hostile_stream', engine='B', clock=True, defs={'VK_FLOOD': 0}, defs_quick={'VK_BYTES': 5}, defs_thorough={'VK_BYTES': 8},
+P['C19']['jobs'] += [dict(name='stream_bytes', tu='harness/w_hostile.cpp', entry='h_hostile_stream', engine='B', clock=True, defs={'VK_FLOOD': 0}, defs_quick={'VK_BYTES': 5}, defs_thorough={'VK_BYTES': 6},
                           reach=['split', 'completed', 'well-formed-accepted', 'malformed'], samples=10),
-                     dict(name='stream_flood', tu='harness/w_hostile.cpp', entry='h_hostile_stream', engine='B', clock=True, defs={'VK_FLOOD': 1}, defs_quick={'VK_BYTES': 3}, defs_thorough={'VK_BYTES': 5},
+                     dict(name='stream_flood', tu='harness/w_hostile.cpp', entry='h_hostile_stream', engine='B', clock=True, defs={'VK_FLOOD': 1}, defs_quick={'VK_BYTES': 3}, defs_thorough={'VK_BYTES': 4},
                           reach=['flood', 'oversize-refused', 'malformed'], samples=10)]
 
 P['C12'] = dict(
@@ -141,11 +141,11 @@ P['C12'] = dict(
           dict(name='keepalive_arithmetic', tu='harness/w_ka.cpp', entry='h_ka_arith', engine='B', clock=True, defs_quick={'VK_KMAX': 20}, defs_thorough={'VK_KMAX': 60}, reach=['zero', 'server-keep-alive', 'configured-keep-alive'], samples=6)])
 
 P['C13'] = dict(
-    level_text='On the real mqtt_client: every sequence (up to the step bound) of subscriptions answered with a symbolic admissible SUBACK code (granted 0..2 or refused), connection losses followed by a reconnect with Session Present 0 or 1, and inbound messages, with async_receive re-armed continuously. Monitor: the number of session_expired entries delivered equals the number of reconnects with Session Present 0 that were preceded, since the start or the previous report, by a granted subscription; none otherwise; and each report precedes every message the broker sent on the connection that caused it.',
-    level_note='Bounds: 2 subscriptions, 3 reconnects, 2 messages, 5 (quick) / 6 (thorough) steps.',
+    level_text='On the real mqtt_client: every sequence (up to the step bound) of subscriptions answered with an admissible SUBACK code (granted 0 / 2 or refused 0x80 / 0x87), connection losses followed by a reconnect (optionally refused once or twice with CONNACK 0x88 first) with Session Present 0 or 1, and inbound messages, with async_receive re-armed continuously. Monitor: the number of session_expired entries delivered equals the number of reconnects with Session Present 0 that were preceded, since the start or the previous report, by a granted subscription; none otherwise; and each report precedes every message the broker sent on the connection that caused it.',
+    level_note='Bounds: 2 subscriptions, 2 (quick) / 3 (thorough) reconnects, 2 messages, 5 / 6 steps.',
     assumptions=_pub_assume[:2],
-    jobs=[dict(name='session_expired_once', tu='harness/w_sess.cpp', entry='h_session', engine='B', clock=True, defs_quick={'VK_STEPS': 5}, defs_thorough={'VK_STEPS': 6},
-               reach=['reported', 'subscribed', 'subscription-refused', 'session-lost-with-subscription', 'session-lost-without-subscription', 'message'], samples=10)])
+    jobs=[dict(name='session_expired_once', tu='harness/w_sess.cpp', entry='h_session', engine='B', clock=True, defs_quick={'VK_STEPS': 5, 'VK_RECONNECTS': 2, 'VK_REFUSALS': 1}, defs_thorough={'VK_STEPS': 6, 'VK_RECONNECTS': 3, 'VK_REFUSALS': 2},
+               reach=['reported', 'subscribed', 'subscription-refused', 'session-lost-with-subscription', 'session-lost-without-subscription', 'message', 'connect-refused'], samples=10)])
 
 _caps = 'harness/w_caps.cpp'
 P['C15'] = dict(
